@@ -1054,6 +1054,9 @@ pub fn run_perm(line: &str) -> Result<String, String> {
 	let raw = r.schema()?;
 	let same = r.list(|r| r.sv())?;
 	let bad = r.list(|r| r.sv())?;
+	// (omitted fields are announced through `skip_field`, as a derived struct with
+	// `skip_serializing_if` does)
+	crate::svser::set_skip_names(&raw);
 	let schema = match build::to_schema_mut(&raw).freeze() {
 		Ok(s) => s,
 		Err(_) => return Ok("freeze-err".into()),
